@@ -16,7 +16,7 @@ PARTIAL = {"C13_argv (whole lists)/C13_cfg/negation/positional": "the compositio
            "are decided by correspondence and the intended-list oracle"}
 BSIZES = (4096,)
 RULE = ("contexts of 2..8 options (required-argument / implicit-value / flag kinds, optional one-character alias, negatable flags, names sharing prefixes); intended lists of 0..8 "
-        "occurrences spelled as --name=value, --name value, unique prefix, -a value, -avalue, grouped flags, --no-name, implicit forms, positional and unknown tokens, '--' tail; "
+        "occurrences spelled as --name=value, --name value, unique prefix, -a value, -avalue, grouped flags (also ending in an alias that takes a value: -hvL3, -hvL 3), --no-name, implicit forms, positional and unknown tokens, '--' tail; "
         "values incl. empty, blanks, quotes, backslashes, '=' and leading '-'; plus a stream of arbitrary token lists (errors expected) for the correspondence; "
         "distinct = distinct cases; non-trivial = at least 3 occurrences")
 TRUSTED = ["std::isspace in the C locale (blank, \\t..\\r)"]
@@ -111,6 +111,16 @@ def gen_intended(rng):
                 fl = [j for j, x in enumerate(opts) if x["kind"] == "flag" and x["alias"]]
                 grp = [k] + [rng.choice(fl) for _ in range(rng.randint(0, 2))]
                 toks.append(b"-" + bytes(opts[j]["alias"] for j in grp)); pairs += [(j, b"") for j in grp]; continue
+            # a group of short flags may END in an alias that takes a value: -hvL3 / -hvL 3 / -hO7
+            if o["kind"] in ("req", "impl") and o["alias"] and rng.random() < 0.25:
+                fl = [j for j, x in enumerate(opts) if x["kind"] == "flag" and x["alias"]]
+                if fl and not (o["kind"] == "impl" and v == b"") or (fl and o["kind"] == "impl"):
+                    grp = [rng.choice(fl) for _ in range(rng.randint(1, 2))]
+                    head = b"-" + bytes(opts[j]["alias"] for j in grp) + bytes([o["alias"]])
+                    if o["kind"] == "req" and (v == b"" or rng.random() < 0.5): toks += [head, v]
+                    else: toks.append(head + v)
+                    pairs += [(j, b"") for j in grp] + [(k, v)]
+                    continue
             sp = spell(rng, opts, k, v, allowF)
             if sp is None: continue
             toks += sp; pairs.append((k, v))
